@@ -173,108 +173,224 @@ def check(run: Run) -> None:
                     f"dimension_to_si_unit is not the product over all dimensional dependencies of _si_conversions[dim] ** exponent "
                     f"(for exponents {dict(zip(BASE, map(str, exps)))} it gives {got!r})")
 
-    # ---- U5
+    # ---- U5 / U6 by evaluation
+    _u7_purity(run)
+    _u5(run)
+    _u6(run)
+
+
+def _u5(run: Run) -> None:
+    """the Celsius helpers are EVALUATED (sa/pyreader.py) on a symbolic temperature: what they compute is compared with x + 273.15 / x - 273.15, whatever the shape
+    of the code (helpers inlined or not)"""
+    from fractions import Fraction as _Fr
+    from ..alg import T as _T, var as _var, num as _num, op as _op
+    from ..gate import GateReader, Obj
+    from ..pyreader import Raised
+    from ..exprtree import same_value as _same
     cm = run.src.need(CEL)
-    cls = next((s for s in cm.tree.body if isinstance(s, ast.ClassDef) and s.name == "Celsius"), None)
-    run.require(cls is not None, "class Celsius not found")
-    off = next((s for s in cls.body if isinstance(s, (ast.Assign, ast.AnnAssign)) and any(isinstance(t, ast.Name) and t.id == "CELSIUS_TO_KELVIN_OFFSET" for t in (s.targets if isinstance(s, ast.Assign) else [s.target]))), None)
-    run.require(off is not None, "Celsius.CELSIUS_TO_KELVIN_OFFSET not found")
-    run.ob("U5", "offset")
+    OFFSET = _num(_Fr("273.15"))
+
+    class R(GateReader):
+
+        def __init__(self):
+            super().__init__(cm.tree, "celsius.py")
+            self.quantities = []
+
+        def global_value(self, n):
+            d_ = dotted(n)
+            if d_ == "Celsius.CELSIUS_TO_KELVIN_OFFSET":
+                cls_ = next((s_ for s_ in cm.tree.body if isinstance(s_, ast.ClassDef) and s_.name == "Celsius"), None)
+                for st in (cls_.body if cls_ else []):
+                    if isinstance(st, (ast.Assign, ast.AnnAssign)) and any(isinstance(t, ast.Name) and t.id == "CELSIUS_TO_KELVIN_OFFSET" for t in (st.targets if isinstance(st, ast.Assign) else [st.target])):
+                        return self.ev(st.value, {}, {})
+                self.fail(n, "Celsius.CELSIUS_TO_KELVIN_OFFSET not found")
+            if d_ in ("units.temperature", ):
+                return ("dimension", "temperature")
+            if d_ in ("units.kelvin", "units.K"):
+                return ("unit", "kelvin")
+            if d_ and d_.startswith("units.") and d_.count(".") == 1:
+                return ("dimension", d_.split(".")[1])
+            return super().global_value(n)
+
+        def hook_binop(self, o, l, r, n):
+            # value * units.kelvin: the kelvin quantity of that value (dimensionless 0 when the value is zero - what the explicit dimension is for)
+            if isinstance(o, ast.Mult) and (l == ("unit", "kelvin") or r == ("unit", "kelvin")):
+                other = r if l == ("unit", "kelvin") else l
+                return ("times-kelvin", other)
+            if isinstance(o, ast.Div) and r == ("unit", "kelvin") and isinstance(l, Obj):
+                return ("over-kelvin", l)
+            return super().hook_binop(o, l, r, n)
+
+        def hook_call(self, n, env, fns):
+            name = (dotted(n.func) or "").split(".")[-1]
+            if name == "Celsius" and len(n.args) <= 1:
+                return Obj("Celsius", {"value": self.ev(n.args[0], env, fns) if n.args else _num(0)}, "celsius")
+            if name == "Quantity" and name not in self.functions and n.args:
+                a0 = self.ev(n.args[0], env, fns)
+                kw_ = {k.arg: self.ev(k.value, env, fns) for k in n.keywords if k.arg}
+                if a0 == ("unit", "kelvin"):
+                    return Obj("Quantity", {"scale_factor": _num(1), "dimension": ("dimension", "temperature")}, "kelvin")
+                q_ = Obj("Quantity", {"expr": a0, "dimension_kw": kw_.get("dimension")}, "built")
+                self.quantities.append(q_)
+                return q_
+            if name in ("float", "N") and len(n.args) == 1:
+                return self.ev(n.args[0], env, fns)
+            if name == "getattr" and len(n.args) in (2, 3):
+                v, a_ = self.ev(n.args[0], env, fns), self.ev(n.args[1], env, fns)
+                if isinstance(v, Obj) and isinstance(a_, str):
+                    if a_ in v.attrs:
+                        return v.attrs[a_]
+                    if len(n.args) == 3:
+                        return self.ev(n.args[2], env, fns)
+                    raise Raised("AttributeError", getattr(n, "lineno", 0))
+            if name in ("convert_to_si", "scale_factor", "convert_to_float") and len(n.args) == 1 and name not in self.functions:
+                v = self.ev(n.args[0], env, fns)
+                if isinstance(v, Obj) and "scale_factor" in v.attrs:
+                    return v.attrs["scale_factor"]  # kelvin is an SI base unit: the SI value of a temperature is its scale factor
+            if name == "convert_to" and len(n.args) == 2 and name not in self.functions:
+                v, u_ = self.ev(n.args[0], env, fns), self.ev(n.args[1], env, fns)
+                if isinstance(v, Obj) and "scale_factor" in v.attrs and (u_ == ("unit", "kelvin") or (isinstance(u_, Obj) and u_.tag == "kelvin")):
+                    self.events.append((v, "value", "convert_to", ("dimension", "temperature")))  # the library's convert_to checks the dimension itself (U2)
+                    return v.attrs["scale_factor"]
+            return super().hook_call(n, env, fns)
+
+    c = _var("c")
+    # to_kelvin / from_kelvin
+    for name, arg, want in (("to_kelvin", lambda: Obj("Celsius", {"value": c}, "arg"), _op("add", c, OFFSET)), ("from_kelvin", lambda: c, _op("sub", c, OFFSET))):
+        run.ob("U5", name)
+        rd = R()
+        try:
+            got = rd.call(name, [arg()])
+        except Raised as r_:
+            got = r_
+        val = got.attrs.get("value") if isinstance(got, Obj) and got.cls == "Celsius" else got
+        if name == "from_kelvin" and not (isinstance(got, Obj) and got.cls == "Celsius"):
+            val = None
+        if not (isinstance(val, (_T, int)) and _same(val, want)):
+            run.violate("U5", f"{CEL}:{name}:affine", cm, cm.tree, f"{name}(x) evaluates to {val!r}; expected x {'+' if name == 'to_kelvin' else '-'} 273.15 (one shared offset)")
+    # to_kelvin_quantity
+    run.ob("U5", "to_kelvin_quantity")
+    rd = R()
     try:
-        val = ast.literal_eval(off.value)
-    except (ValueError, SyntaxError):
-        val = None
-    if not (isinstance(val, (int, float)) and abs(val - 273.15) < 1e-12):
-        run.violate("U5", f"{CEL}:offset", cm, off, f"the Celsius/kelvin offset is {norm(off.value)}, not 273.15")
-    signs = {}
-    for name, expected in (("to_kelvin", +1), ("from_kelvin", -1)):
-        fn = Fn(w, CEL, name)
-        for r in fn.cfg.returns():
-            run.ob("U5", name)
-            v = r.ast.value
-            if name == "from_kelvin" and isinstance(v, ast.Call) and dotted(v.func) == "Celsius" and len(v.args) == 1:
-                v = v.args[0]
-            aff = _affine(v, fn.params[0], fn, r)
-            if aff is None or aff != expected:
-                run.violate("U5", f"{fn.qual}:affine", fn.mod, r.ast, f"{name} returns `{norm(r.ast.value, 60)}`; expected x {'+' if expected > 0 else '-'} Celsius.CELSIUS_TO_KELVIN_OFFSET")
-    tq = Fn(w, CEL, "to_kelvin_quantity")
-    for r in tq.cfg.returns():
-        run.ob("U5", "to_kelvin_quantity")
-        sl = tq.slice(r, r.ast.value)
-        calls = {tq.callee(node_of(tq.cfg, c) or r, c) for c in sl.call_nodes}
-        binops = [x for e in sl.exprs for x in ast.walk(e) if isinstance(x, ast.BinOp)]
-        qcalls = [c for c in sl.call_nodes if tq.callee(node_of(tq.cfg, c) or r, c) == QTY]
-        explicit_dim = False
-        from ..dim import Interp, guard_dimension
-        for qc in qcalls:
-            d = kw(qc, "dimension")
-            if d is not None and guard_dimension(Interp(w, w.env(CEL)).ev(d)) == dimension_table()["temperature"]:
-                explicit_dim = True
-        form_a = len(binops) == 1 and isinstance(binops[0].op, ast.Mult) and "units.kelvin" in sl.attrs  # to_kelvin(value) * units.kelvin
-        form_b = not binops and explicit_dim  # Quantity(to_kelvin(value), dimension=units.temperature)
-        if CEL + ".to_kelvin" not in calls or not qcalls or not (form_a or form_b):
-            run.violate("U5", f"{tq.qual}:route", tq.mod, r.ast, "to_kelvin_quantity does not wrap to_kelvin(value), unchanged, as a kelvin quantity")
+        got = rd.call("to_kelvin_quantity", [Obj("Celsius", {"value": c}, "arg")])
+    except Raised as r_:
+        got = r_
+    ok = isinstance(got, Obj) and got.cls == "Quantity" and got in rd.quantities
+    expr = got.attrs.get("expr") if ok else None
+    if ok and isinstance(expr, tuple) and expr and expr[0] == "times-kelvin":
+        inner, explicit = expr[1], False
+    else:
+        inner, explicit = expr, ok and got.attrs.get("dimension_kw") == ("dimension", "temperature")
+    if not (ok and isinstance(inner, (_T, int)) and _same(inner, _op("add", c, OFFSET))):
+        run.violate("U5", f"{CEL}:to_kelvin_quantity:route", cm, cm.tree, f"to_kelvin_quantity(Celsius(x)) does not build the quantity of x + 273.15 kelvin (got {got!r} from {expr!r})")
+    else:
         run.ob("U5", "to_kelvin_quantity:zero-keeps-dimension")
-        if not explicit_dim:
-            run.violate("U5", f"{tq.qual}:zero-dimension", tq.mod, r.ast,
+        if not explicit:
+            run.violate("U5", f"{CEL}:to_kelvin_quantity:zero-dimension", cm, cm.tree,
                         "to_kelvin_quantity builds its Quantity without an explicit temperature dimension: at absolute zero `0 * kelvin` is the plain number 0, "
                         "the quantity becomes dimensionless and from_kelvin_quantity(to_kelvin_quantity(Celsius(-273.15))) fails - the helpers are not mutual inverses there")
-    fq = Fn(w, CEL, "from_kelvin_quantity")
-    for r in fq.cfg.returns():
-        run.ob("U5", "from_kelvin_quantity")
-        sl = fq.slice(r, r.ast.value)
-        calls = {fq.callee(node_of(fq.cfg, c) or r, c) for c in sl.call_nodes}
-        offsets = any(isinstance(x, ast.BinOp) and isinstance(x.op, (ast.Add, ast.Sub)) for e in sl.exprs for x in ast.walk(e)) or \
-            any(c_ not in (0, 1) for c_ in numeric_consts(sl))
-        if CEL + ".from_kelvin" not in calls or "units.kelvin" not in sl.attrs or offsets or "value" not in sl.params:
-            run.violate("U5", f"{fq.qual}:route", fq.mod, r.ast, "from_kelvin_quantity does not route the value in kelvin (the quantity divided by the unit kelvin, no offset of its own) "
-                                                                 "through from_kelvin")
-        # the argument is a temperature: the library's own dimension check (directly, or through the library's convert_to) dominates the return
-        run.ob("U5", "from_kelvin_quantity:dimension-checked")
-        checks = [n for n in fq.cfg.stmt_nodes() for c in node_calls(n)
-                  if (fq.callee(n, c) or "").split(".")[-1] in ("assert_equivalent_dimension", ) and c.args and dotted(c.args[0]) == "value"
-                  or (fq.callee(n, c) == CONV + ".convert_to" and c.args and dotted(c.args[0]) == "value")]
-        if not any(fq.cfg.dominated_by(r, lambda y, k=k: y is k) or k is r for k in checks):
-            run.violate("U5", f"{fq.qual}:dimension", fq.mod, r.ast,
-                        "from_kelvin_quantity converts its argument without checking that it is a temperature (SymPy's convert_to plus subs(kelvin, 1) strips the unit whatever "
-                        "its exponent): 300 K**2 or 300/K come back as 26.85 degrees Celsius")
+    # from_kelvin_quantity
+    run.ob("U5", "from_kelvin_quantity")
+    rd = R()
+    sf = _var("sf")
+    q = Obj("Quantity", {"scale_factor": sf, "dimension": ("dimension", "temperature")}, "q")
+    try:
+        got = rd.call("from_kelvin_quantity", [q])
+    except Raised as r_:
+        got = r_
+    val = got.attrs.get("value") if isinstance(got, Obj) and got.cls == "Celsius" else None
+    if not (isinstance(val, (_T, int)) and _same(val, _op("sub", sf, OFFSET))):
+        run.violate("U5", f"{CEL}:from_kelvin_quantity:route", cm, cm.tree,
+                    f"from_kelvin_quantity(q) does not give Celsius(value of q in kelvin - 273.15) (got {got!r} with value {val!r})")
+    run.ob("U5", "from_kelvin_quantity:dimension-checked")
+    if not any(e_[0] is q and e_[3] == ("dimension", "temperature") for e_ in rd.events):
+        run.violate("U5", f"{CEL}:from_kelvin_quantity:dimension", cm, cm.tree,
+                    "from_kelvin_quantity converts its argument without checking that it is a temperature (SymPy's convert_to plus subs(kelvin, 1) strips the unit whatever "
+                    "its exponent): 300 K**2 or 300/K come back as 26.85 degrees Celsius")
 
-    _u7_purity(run)
-    # ---- U6
-    ev = Fn(w, CONV, "evaluate_expression")
-    run.ob("U6", "evaluate_expression")
-    oku = False
-    for lp in [n for n in ev.cfg.stmt_nodes() if n.kind == "for"]:
-        it = lp.ast.iter
-        if isinstance(it, ast.Call) and isinstance(it.func, ast.Attribute) and it.func.attr == "atoms" and dotted(it.func.value) == "expr" and isinstance(lp.ast.target, ast.Name):
-            q = lp.ast.target.id
-            for n, c in [(n, c) for n in ev.cfg.stmt_nodes() for c in node_calls(n) if isinstance(c.func, ast.Attribute) and c.func.attr == "subs" and dotted(c.func.value) == "expr"]:
-                if len(c.args) == 2 and dotted(c.args[0]) == q:
-                    s1 = ev.slice(n, c.args[1])
-                    si = [cc for cc in s1.call_nodes if ev.callee(node_of(ev.cfg, cc) or n, cc) == CONV + ".convert_to_si"]
-                    st = stmt_of(ev.fn, c)
-                    if si and [dotted(a) for a in si[0].args] == [q] and conditions_for(ev.fn, st, stop=lp.ast) == [] and not any(isinstance(x, ast.BinOp) for e in s1.exprs for x in ast.walk(e)):
-                        oku = True
-    if not oku:
-        run.violate("U6", f"{ev.qual}:substitution", ev.mod, ev.fn, "evaluate_expression does not replace every quantity atom q by convert_to_si(q) (possibly evalf'd)")
-    # every kind of leaf the quantity collector gives a scale factor to is evaluated: quantities AND unit prefixes
-    run.ob("U6", "evaluate_expression:leaf-kinds")
-    cq = run.src.need("symplyphysics.core.dimensions.collect_quantity")
-    leaf_kinds = set()
-    for st in cq.tree.body:
-        if isinstance(st, (ast.Assign, ast.AnnAssign)) and dotted(st.targets[0] if isinstance(st, ast.Assign) else st.target) == "_cases" and isinstance(st.value, ast.Dict):
-            for k, v in zip(st.value.keys, st.value.values):
-                h = next((f_ for f_ in cq.tree.body if isinstance(f_, ast.FunctionDef) and f_.name == dotted(v)), None)
-                if h is not None and not any(isinstance(x, ast.Call) and dotted(x.func) == "collect_quantity_factor_and_dimension" for x in ast.walk(h)) \
-                        and any(isinstance(x, ast.Attribute) and x.attr == "scale_factor" for x in ast.walk(h)):
-                    leaf_kinds.add((dotted(k) or "").split(".")[-1])
-    run.require(leaf_kinds >= {"SymQuantity", "Prefix"}, f"leaf kinds of the quantity collector not understood: {sorted(leaf_kinds)}")
-    handled = {(dotted(a) or "").split(".")[-1] for x in ast.walk(ev.fn) if isinstance(x, ast.Call) and isinstance(x.func, ast.Attribute) and x.func.attr == "atoms" for a in x.args}
-    missing = sorted(leaf_kinds - handled)
-    if missing:
-        run.violate("U6", f"{ev.qual}:leaf-kinds:{','.join(missing)}", ev.mod, ev.fn,
-                    f"evaluate_expression leaves {missing} atoms in the expression: the quantity collector gives them a scale factor (5 * units.kilo * units.meter is 5000 m), "
-                    f"so the evaluated expression is not a number and does not have the value of the input")
+
+def _u6(run: Run) -> None:
+    """evaluate_expression EVALUATED on an expression with two quantities, a prefix and a plain symbol: every leaf the quantity collector gives a scale factor to
+    (quantities AND prefixes, C05) is replaced by its SI value, nothing else changes"""
+    from ..alg import T as _T, var as _var, num as _num, op as _op, app as _app, substitute as _subst
+    from ..pyreader import PyReader, Raised
+    from ..exprtree import same_value as _same
+    cvm = run.src.need(CONV)
+    q1, q2, k, x = _var("q1"), _var("q2"), _var("kilo"), _var("x")
+    expr = _op("add", _op("mul", _op("mul", _num(5), k), q1), _op("mul", x, _op("pow", q2, _num(2))))
+    kinds = {"q1": "SymQuantity", "q2": "SymQuantity", "kilo": "Prefix"}
+
+    class R(PyReader):
+
+        def class_token(self, v):
+            return v[1] if isinstance(v, tuple) and len(v) == 2 and v[0] == "class" else None
+
+        def global_value(self, n):
+            if isinstance(n, ast.Name) and n.id in ("SymQuantity", "Prefix", "Quantity") and n.id not in self.functions:
+                return ("class", "SymQuantity" if n.id == "Quantity" else n.id)
+            return super().global_value(n)
+
+        def hook_method(self, base, attr, args, kwargs, n):
+            if isinstance(base, _T) and attr == "atoms" and args:
+                want = {self.class_token(a) for a in args}
+                names = []
+                def walk(t):
+                    if t.op == "var":
+                        if kinds.get(t.val) in want and t.val not in names:
+                            names.append(t.val)
+                    for a_ in t.args:
+                        walk(a_)
+                walk(base)
+                return [_var(nm) for nm in names]
+            if isinstance(base, _T) and attr in ("evalf", "n"):
+                return _app("evalf", base)
+            return NotImplemented
+
+        def hook_attr(self, base, attr, n):
+            if isinstance(base, _T) and base.op == "var" and kinds.get(base.val) == "Prefix" and attr == "scale_factor":
+                return _var("factor(kilo)")
+            if isinstance(base, _T) and base.op == "var" and kinds.get(base.val) == "SymQuantity" and attr == "scale_factor":
+                return _var(f"sf({base.val})")  # SymPy's gram-based scale factor, not the SI value
+            return NotImplemented
+
+        def hook_call(self, n, env, fns):
+            name = (dotted(n.func) or "").split(".")[-1]
+            if name == "convert_to_si" and len(n.args) == 1 and name in self.functions:
+                v = self.ev(n.args[0], env, fns)
+                if isinstance(v, _T) and v.op == "var" and kinds.get(v.val) == "SymQuantity":
+                    return _var(f"si({v.val})")
+            return NotImplemented
+
+    for evaluate in (False, True):
+        run.ob("U6", f"evaluate_expression[evaluate={evaluate}]")
+        rd = R(cvm.tree, "convert.py", depth_limit=8)
+        try:
+            got = rd.call("evaluate_expression", [expr], {"evaluate": evaluate})
+        except Raised as r_:
+            got = r_
+        si = (lambda nm: _app("evalf", _var(f"si({nm})"))) if evaluate else (lambda nm: _var(f"si({nm})"))
+        want = _subst(expr, {"q1": si("q1"), "q2": si("q2"), "kilo": _var("factor(kilo)")})
+        if not isinstance(got, _T):
+            run.violate("U6", f"{CONV}:evaluate_expression:substitution", cvm, cvm.tree, f"evaluate_expression(evaluate={evaluate}) evaluates to {got!r}, not an expression")
+            continue
+        left = sorted(nm for nm in kinds if _mentions(got, nm))
+        if left:
+            what = sorted({kinds[nm] for nm in left})
+            rid_key = "leaf-kinds:" + ",".join(what)
+            run.violate("U6", f"{CONV}:evaluate_expression:{rid_key}", cvm, cvm.tree,
+                        f"evaluate_expression leaves {what} atoms in the expression: the quantity collector gives them a scale factor (5 * units.kilo * units.meter is 5000 m), "
+                        f"so the evaluated expression is not a number and does not have the value of the input")
+        elif not _same(got, want):
+            run.violate("U6", f"{CONV}:evaluate_expression:substitution", cvm, cvm.tree,
+                        f"evaluate_expression does not replace every quantity atom q by convert_to_si(q) (possibly evalf'd) and every prefix by its scale factor: got {got!r}")
+
+
+def _mentions(t, name: str) -> bool:
+    if isinstance(t, int):
+        return False
+    if t.op == "var":
+        return t.val == name
+    return any(_mentions(a, name) for a in t.args)
 
 
 def _u7_purity(run: Run) -> None:
